@@ -29,16 +29,39 @@ SEED = int(os.environ.get("VERIF_SEED", "0") or 0)
 _SCRATCH = None
 
 
+def _sweep(base):
+    """Remove scratch directories of check processes that no longer exist (killed runs)."""
+    try:
+        names = os.listdir(base)
+    except OSError:
+        return
+    for n in names:
+        if n.startswith("hsverif.") and n[8:].isdigit() and not os.path.exists("/proc/%s" % n[8:]):
+            shutil.rmtree(os.path.join(base, n), ignore_errors=True)
+
+
 def scratch():
-    """Per-process scratch directory (tmpfs when available); removed at exit."""
+    """Per-process scratch directory (tmpfs when available).  The first process of a check owns the top directory
+    and removes it at exit; pool workers (which leave through os._exit and run no exit handlers) get a
+    sub-directory of it."""
     global _SCRATCH
     if _SCRATCH is None or _SCRATCH[0] != os.getpid():
+        top = os.environ.get("HSVERIF_SCRATCH_TOP")
+        if top and os.path.isdir(top) and os.environ.get("HSVERIF_SCRATCH_OWNER") != str(os.getpid()):
+            d = os.path.join(top, "w%d" % os.getpid())
+            shutil.rmtree(d, ignore_errors=True)
+            os.makedirs(d)
+            _SCRATCH = (os.getpid(), d)
+            return d
         base = "/dev/shm" if os.path.isdir("/dev/shm") and os.access("/dev/shm", os.W_OK) else (
             os.environ.get("TMPDIR") or "/var/tmp")
+        _sweep(base)
         d = os.path.join(base, "hsverif.%d" % os.getpid())
         shutil.rmtree(d, ignore_errors=True)
         os.makedirs(d)
         _SCRATCH = (os.getpid(), d)
+        os.environ["HSVERIF_SCRATCH_TOP"] = d
+        os.environ["HSVERIF_SCRATCH_OWNER"] = str(os.getpid())
         atexit.register(_cleanup, os.getpid(), d)
     return _SCRATCH[1]
 
@@ -282,3 +305,7 @@ def finding_matches(finding, sig):
 
 class HarnessError(Exception):
     pass
+
+
+class SetupFailure(HarnessError):
+    """A preparatory call on the code under test (warm-up / initial history) did not succeed."""
